@@ -143,4 +143,176 @@ theorem inline_partial_call_renders_the_partial (r : Registry) (fs : FS) (nm L R
 example : (C03.TextBeforeTag ['a', ' '] ∨ True) ∧ (trimEndBlank ['x', ':']).getLast? = some ':' ∧ trimStartBlank [' ', 'y'] = ['y'] := by
   refine ⟨Or.inr trivial, by decide, by decide⟩
 
+/-! ### a partial whose text is a value tag: the context it is applied to -/
+
+/-- the compiled `{{x}}` registered as the partial `nm`, rendered in the scope `expand_partial` sets up (one block holding the
+    designated context BY VALUE): the escaped text of the context's field `x` -/
+theorem render_value_partial (nm x : Str) (reg : Registry) (ctx j : Json) (root : Json) (f : Nat) (mp : List (Nat × Nat)) (rcE : RC) (out : Out)
+    (hb : rcE.blocks = [{ baseValue := some ctx }]) (hi : rcE.indentString = none) (hmc : rcE.modifiedCtx = none)
+    (hde : rcE.disableEscape = false) (hl : assocGet rcE.localHelpers x = none) (hr : assocGet reg.helpers x = none)
+    (hsafe : Spec.indexSafe ctx [x] = true) (hj : Spec.descend ctx [x] = some j) (hf : out.failAt = none) :
+    ∃ rc2 out2, renderTemplate reg root (f + 6) (.mk (some nm) [.expr (PlainText.nameHT x)] mp) rcE out = .ok () rc2 out2
+      ∧ Quiet { rcE with currentTemplate := some nm } rc2 ∧ out2.failAt = none ∧ out2.text = out.text ++ reg.escape j.render := by
+  let rcB : RC := { rcE with currentTemplate := some nm }
+  have hev : evaluate2 root (.relative [.named x] x) rcB out = .ok (.derived j) rcB out := by
+    have := C01.navigate_current_value_scope root { baseValue := some ctx } [] x [] rcB out ctx (by simp [getInBlockParams, assocGet]) rfl (by simpa using hsafe)
+    simp only [C01.names, List.map_cons, List.map_nil] at this
+    have hbB : rcB.blocks = [{ baseValue := some ctx }] := hb
+    simp only [evaluate2, RM.bind_def, RM.bnd_apply, RM.get_apply, hbB, this, C01.blockValue]
+    simp only [Option.bind]
+    rw [hj]
+  have hel : renderElem reg root (f + 4) (.expr (PlainText.nameHT x)) rcB out = indentAwareWrite (reg.escape j.render) rcB out :=
+    C02.expr_path_escapes_once reg root f (PlainText.nameHT x) (.relative [.named x] x) rcB out (.derived j) rfl rfl hl hr hmc hde hev rfl
+  obtain ⟨rc2, out2, hw, hq2, hf2, ht2⟩ := indentAwareWrite_quiet rcB hi (reg.escape j.render) rcB out (Quiet.refl _) hf
+  have hmA := C12.modifyAux_eq (fun rc => { rc with currentTemplate := some nm }) rcE out rcB rfl
+  refine ⟨rc2, out2, ?_, hq2, hf2, ht2⟩
+  rw [show f + 6 = (f + 4) + 1 + 1 by omega]
+  simp only [renderTemplate, renderElems, RM.bind_def, RM.bnd_apply, RM.get_apply, Tmpl.name, Tmpl.elements, Tmpl.mapping,
+    RM.mapErr, hmA, hel, hw, RM.pure_def, RM.ret_apply, Option.isNone_some, Bool.false_eq_true, ↓reduceIte]
+
+/-- `expand_partial` for `{{> name}}` (no argument, no hash, no indentation) with `name` registered as the compiled `{{x}}`: the
+    partial is applied to the caller's current context – here the data itself – and the caller's state comes back except for
+    the write flags -/
+theorem expandPartial_value_named (nm x : Str) (hnpb : (nm == PARTIAL_BLOCK) = false) (reg : Registry) (root j : Json) (f : Nat) (mp : List (Nat × Nat)) (rc1 : RC) (out : Out)
+    (hreg : assocGet reg.templates nm = some (.mk (some nm) [.expr (PlainText.nameHT x)] mp))
+    (hb : rc1.blocks = [{}]) (hpa : rc1.partials = []) (hdv : rc1.devTemplates = none) (hct : rc1.currentTemplate ≠ some nm)
+    (hin : rc1.indentString = none) (hmc : rc1.modifiedCtx = none) (hde : rc1.disableEscape = false)
+    (hl : assocGet rc1.localHelpers x = none) (hr : assocGet reg.helpers x = none)
+    (hsafe : Spec.indexSafe root [x] = true) (hj : Spec.descend root [x] = some j) (hf : out.failAt = none) :
+    ∃ rc' out', expandPartial reg root (f + 7) ⟨nm, [], [], none, none⟩ rc1 out = .ok () rc' out'
+      ∧ Quiet rc1 rc' ∧ out'.failAt = none ∧ out'.text = out.text ++ reg.escape j.render := by
+  obtain ⟨rc2, out2, hr2, hq2, hf2, ht2⟩ := render_value_partial nm x reg root j root f mp
+    { rc1 with blocks := [{ baseValue := some root }], indentString := none, partials := [], devTemplates := none } out rfl rfl hmc hde hl hr hsafe hj hf
+  have hev := C12.evaluate_this_top root rc1 out hb
+  have hne : (rc1.currentTemplate == some nm) = false := by simpa using hct
+  refine ⟨{ rc2 with pbStack := rc2.pbStack, pbBinding := rc1.pbBinding, blocks := rc1.blocks, currentTemplate := rc1.currentTemplate, indentString := rc1.indentString }, out2, ?_, ?_, hf2, ht2⟩
+  · rw [show f + 7 = (f + 6) + 1 by omega]
+    simp only [expandPartial, RM.bind_def, RM.bnd_apply, RM.pure_def, RM.ret_apply, RM.get_apply, hne, Bool.false_eq_true, ↓reduceIte, hnpb,
+      hpa, hdv, assocGet, Option.bind, hreg, List.getElem?_nil, hev, SJ.asJson, mergeJson, List.map_nil, List.isEmpty_nil,
+      RM.partialScope, RM.bracket_apply]
+    rw [hr2]
+    simp [hb, hpa, hdv, hin]
+  · unfold Quiet at hq2 ⊢
+    rw [hq2]
+    simp [hb, hpa, hdv, hin]
+
+/-- the compiled `{{> name}}` beside other text on its line, `name` registered as the compiled `{{x}}`: the escaped text of the
+    current context's field `x` -/
+theorem partial_value_writes_inline (nm x : Str) (hnpb : (nm == PARTIAL_BLOCK) = false) (reg : Registry) (root j : Json) (rc0 : RC) (mp : List (Nat × Nat))
+    (hreg : assocGet reg.templates nm = some (.mk (some nm) [.expr (PlainText.nameHT x)] mp))
+    (hb : rc0.blocks = [{}]) (hi : rc0.indentString = none) (hmc : rc0.modifiedCtx = none) (hde : rc0.disableEscape = false)
+    (hpa : rc0.partials = []) (hdv : rc0.devTemplates = none) (hct : rc0.currentTemplate ≠ some nm)
+    (hl : assocGet rc0.localHelpers x = none) (hr : assocGet reg.helpers x = none)
+    (hsafe : Spec.indexSafe root [x] = true) (hj : Spec.descend root [x] = some j) :
+    WritesTextK 9 reg root rc0 (.partialExpr (PlainText.pnameD nm none false)) (reg.escape j.render) := by
+  intro fuel rc out hq hf
+  have hrb : rc.blocks = [{}] := by rw [hq.blocks, hb]
+  have hri : rc.indentString = none := by rw [hq.indent, hi]
+  have hrm : rc.modifiedCtx = none := by rw [hq]; exact hmc
+  have hrde : rc.disableEscape = false := by rw [hq]; exact hde
+  have hrp : rc.partials = [] := by rw [hq]; exact hpa
+  have hrd : rc.devTemplates = none := by rw [hq]; exact hdv
+  have hrc : rc.currentTemplate ≠ some nm := by rw [hq]; exact hct
+  have hrl : assocGet rc.localHelpers x = none := by rw [hq]; exact hl
+  have hdeco : decoFromTemplate reg root (fuel + 8) (PlainText.pnameD nm none false) rc out
+      = .ok ⟨nm, [], [], none, none⟩ rc out := by
+    simp [decoFromTemplate, expandAsName, expandParams, expandHash, PlainText.pnameD, DecoG.new, RM.bnd_apply, hri]
+  have hqA : Quiet rc0 { rc with contentProduced := false } := hq.flags _ _ _
+  have hm1 := C12.modifyAux_eq (fun r : RC => { r with
+      indentBeforeWrite := rc.indentBeforeWrite || ((PlainText.pnameD nm none false).indentBeforeWrite && (r.trailingNewline || (PlainText.pnameD nm none false).indent.isSome)),
+      contentProduced := false }) rc out { rc with contentProduced := false }
+    (by simp [PlainText.pnameD, DecoG.new])
+  obtain ⟨rc', out', hx, hq', hf', ht⟩ := expandPartial_value_named nm x hnpb reg root j (fuel + 1) mp { rc with contentProduced := false } out hreg
+    hrb hrp hrd hrc hri hrm hrde hrl hr hsafe hj hf
+  have hq'' : Quiet rc0 rc' := by
+    unfold Quiet at hq' hqA ⊢
+    rw [hq', hqA]
+  have hqG : Quiet rc0 ((fun r : RC => if r.contentProduced = true then { r with indentBeforeWrite := r.trailingNewline }
+      else { r with contentProduced := rc.contentProduced, indentBeforeWrite := rc.indentBeforeWrite }) rc') := by
+    by_cases hcp : rc'.contentProduced = true
+    · simp only [hcp, ↓reduceIte]; exact Quiet.flags hq'' _ _ _
+    · simp only [hcp]; exact Quiet.flags hq'' _ _ _
+  have hm2 := quiet_modifyAux rc0 rc' (fun r : RC => if r.contentProduced = true then { r with indentBeforeWrite := r.trailingNewline }
+      else { r with contentProduced := rc.contentProduced, indentBeforeWrite := rc.indentBeforeWrite }) out' hq'' hqG
+  refine ⟨_, out', ?_, hqG, hf', ht⟩
+  rw [show fuel + 9 = (fuel + 8) + 1 by omega]
+  simp only [renderElem, RM.bind_def, RM.bnd_apply, hdeco, RM.get_apply]
+  rw [hm1]
+  simp only []
+  rw [show fuel + 8 = fuel + 1 + 7 by omega, hx]
+  simp only []
+  exact hm2
+
+/-- what the source `{{x}}` registered under `nm` compiles to: one expression element -/
+theorem value_tag_compiles (nm x : Str) (pi : Bool) (hx : PlainText.IdentName x) (hthis : (x == str "this") = false) :
+    ∃ mp, compile2 (C02.nameTag x) { name := some nm, isPartial := false, preventIndent := pi } = .ok (.mk (some nm) [.expr (PlainText.nameHT x)] mp) := by
+  obtain ⟨m, h⟩ := PlainText.compile_text_name_text_pos x [] [] [] { name := some nm, isPartial := false, preventIndent := pi } hx hthis (Or.inl rfl)
+    ⟨by simp, by simp, by simp [PlainText.noOpen]⟩
+  refine ⟨[Pest.lineCol (PlainText.identSrc x) 0] ++ m, ?_⟩
+  simpa [C02.nameTag, PlainText.leftT, Tmpl.empty, Tmpl.elements, Tmpl.mapping] using h
+
+/-- **a partial renders as its template applied to the current context** – at source level: for EVERY partial name, EVERY identifier
+    `x`, with the partial `name` holding what the source `{{x}}` compiles to, EVERY text `L` (not ending in a blank) and `R`, the tag
+    not alone on its line, every data value and escape function: `L ++ {{> name}} ++ R` renders `L ++ escape(text of data.x) ++ R` –
+    exactly what `L ++ {{x}} ++ R` renders (`C02.name_between_texts_escaped_once`): the partial sees the caller's context, its
+    expression is escaped once, and the caller's state is as before. -/
+theorem partial_applies_template_to_current_context (r : Registry) (fs : FS) (nm x L R : Str) (data j : Json) (mp : List (Nat × Nat))
+    (hnm : PlainText.PartialName nm) (hdev : r.dev = false) (hpi : r.preventIndent = false)
+    (hreg : assocGet r.templates nm = some (.mk (some nm) [.expr (PlainText.nameHT x)] mp))
+    (hnohelper : assocGet r.helpers x = none)
+    (hsafe : Spec.indexSafe data [x] = true) (hj : Spec.descend data [x] = some j)
+    (hL : L = [] ∨ C03.TextBeforeTag L) (hLb : L = [] ∨ ∃ c, L.getLast? = some c ∧ isBlank c = false)
+    (hR : C03.noOpen R)
+    (htext : (∃ c, (trimEndBlank L).getLast? = some c ∧ isNewline c = false)
+           ∨ (∃ c rr, trimStartBlank R = c :: rr ∧ isNewline c = false)) :
+    r.renderTemplate fs (L ++ C12.namedPartialTag nm ++ R) data = .ok (L ++ r.escape j.render ++ R) := by
+  have hnpb : (nm == PARTIAL_BLOCK) = false := by
+    apply beq_eq_false_iff_ne.mpr
+    intro e
+    have := hnm.sym '@' (by rw [e]; decide)
+    exact absurd this (by decide)
+  have htrimL : trimEndBlank L = L := by
+    rcases hLb with rfl | h
+    · rfl
+    · exact C11.trimEndBlank_append L [] (by simp) (Or.inr h) |> fun e => by simpa using e
+  have hsa : PlainText.standalone L R false = false := by
+    simp only [PlainText.standalone, startsWithEmptyLine, endsWithEmptyLine]
+    rcases htext with ⟨c, hc, hn⟩ | ⟨c, rr, hc, hn⟩
+    · have hne : (trimEndBlank L).isEmpty = false := by
+        cases h : trimEndBlank L with
+        | nil => rw [h] at hc; simp at hc
+        | cons a t => rfl
+      simp [endsWithNewline, hc, hn, hne]
+    · simp [hc, startsWithNewline, hn]
+  have hftb : findTrailingBlank L = none := by
+    simp [findTrailingBlank, htrimL]
+  unfold Registry.renderTemplate Registry.renderTemplateToWrite Registry.renderTemplateWithContextToWrite
+    Registry.compileForRenderTemplate
+  obtain ⟨m, hcomp⟩ := PlainText.compile_text_pname_text nm L _ _ { preventIndent := r.preventIndent } hnm hpi hL
+    (PlainText.textAfterTag_split R hR)
+  rw [← PlainText.split_ws R] at hcomp
+  simp only [hsa, Bool.false_eq_true, ↓reduceIte, hftb] at hcomp
+  rw [show C12.namedPartialTag nm = PlainText.pnameSrc nm from rfl, hcomp]
+  simp only [Registry.renderResolved, hdev, Bool.not_false, ↓reduceIte]
+  have hw : ∀ q ∈ (if L = [] then [] else [((Elem.raw L, L) : Elem × Str)]) ++ [(.partialExpr (PlainText.pnameD nm none false), r.escape j.render)]
+      ++ (if R = [] then [] else [((Elem.raw R, R) : Elem × Str)]),
+      WritesTextK 9 r data { ({ rootTemplate := none } : RC) with currentTemplate := none } q.1 q.2 := by
+    intro q hq
+    simp only [List.mem_append, List.mem_cons, List.not_mem_nil, or_false] at hq
+    rcases hq with (hq | rfl) | hq
+    · split at hq
+      · cases hq
+      · simp only [List.mem_cons, List.not_mem_nil, or_false] at hq; subst hq
+        exact (writes_raw r data _ rfl L).toK _ (by omega)
+    · exact partial_value_writes_inline nm x hnpb r data j _ mp hreg rfl rfl rfl rfl rfl rfl (by simp) rfl hnohelper hsafe hj
+    · split at hq
+      · cases hq
+      · simp only [List.mem_cons, List.not_mem_nil, or_false] at hq; subst hq
+        exact (writes_raw r data _ rfl R).toK _ (by omega)
+  have := render_writes_templateK 9 r data none _ m { rootTemplate := none } (by
+    simp only [List.length_append]; split <;> split <;> simp [renderFuel]) hw
+  by_cases hLe : L = [] <;> by_cases hRe : R = [] <;>
+    simp only [hLe, hRe, ↓reduceIte, PlainText.leftT, Tmpl.elements, Tmpl.empty, List.map_cons, List.map_nil, List.map_append, List.nil_append, List.append_nil,
+      List.cons_append, Tmpl.name] at this ⊢ <;> (rw [this]; simp)
+
 end Hbs.C09
